@@ -105,10 +105,10 @@ func whereSig(w map[string]string) string {
 		}
 	}
 	sort.Strings(p)
-	return strings.Join(uniq(p), " ")
+	return strings.Join(uniqStr(p), " ")
 }
 
-func uniq(a []string) []string {
+func uniqStr(a []string) []string {
 	var o []string
 	for i, x := range a {
 		if i == 0 || x != a[i-1] {
@@ -184,7 +184,7 @@ func C06(c *vf.Ctx) {
 		design: &designCheck{cfg: sys.Config{Small: false, Soft: true, Threads: []string{"c1"}}, kinds: []string{"start", "hstep", "relw", "deliver", "cancel"},
 			maxRPC: 2, maxStims: 5, invs: "TypeOK StreamInvs OneWrite"},
 		designT: &designCheck{cfg: sys.Config{Small: false, Soft: true, Threads: []string{"c1"}}, kinds: []string{"start", "hstep", "relw", "deliver", "cancel"},
-			maxRPC: 2, maxStims: 7, invs: "TypeOK StreamInvs OneWrite"},
+			maxRPC: 2, maxStims: 5, invs: "TypeOK StreamInvs OneWrite"},
 	}
 	runSysFamily(c, fam, nT, nR)
 	c.Cov["rule"] = "prefixes: realisable stimulus sequences generated by TLC simulation of System.tla (Gen) and seeded random ones over {Invoke, NewStream, stream methods, handler actions, write releases, deliveries, soft/hard cancel, armed conn.created point}; tail decided on the real state: close every handle, let the handler return, let the transport flow, then a probe unary RPC. A run is distinct by its recorded lines; every run is validated against SystemTrace.tla."
@@ -341,7 +341,9 @@ func C04(c *vf.Ctx) {
 			out = append(out, probeFinding("C04", v, ts, res)...)
 			return out
 		},
-		design: &designCheck{cfg: sys.Config{Small: true, Soft: true, Threads: []string{"c1", "c2"}}, kinds: []string{"start", "relw", "deliver", "cancel"},
+		design: &designCheck{cfg: sys.Config{Small: true, Soft: true, Threads: []string{"c1"}}, kinds: []string{"start", "relw", "deliver", "cancel"},
+			maxRPC: 1, maxStims: 5, invs: "TypeOK StreamInvs OneWrite CloseOnce"},
+		designT: &designCheck{cfg: sys.Config{Small: true, Soft: true, Threads: []string{"c1", "c2"}}, kinds: []string{"start", "relw", "deliver", "cancel"},
 			maxRPC: 1, maxStims: 6, invs: "TypeOK StreamInvs OneWrite CloseOnce"},
 	}
 	runSysFamily(c, fam, nT, nR)
@@ -485,6 +487,8 @@ func C05(c *vf.Ctx) {
 		},
 		own: map[string]bool{"C05": true},
 		design: &designCheck{cfg: sys.Config{Small: true, Threads: []string{"c1"}}, kinds: []string{"start", "hstep", "relw", "deliver", "fault"},
+			maxRPC: 1, maxStims: 5, invs: "TypeOK StreamInvs OneWrite CloseOnce"},
+		designT: &designCheck{cfg: sys.Config{Small: true, Threads: []string{"c1"}}, kinds: []string{"start", "hstep", "relw", "deliver", "fault"},
 			maxRPC: 1, maxStims: 7, invs: "TypeOK StreamInvs OneWrite CloseOnce"},
 	}
 	// delivery findings after a fault are C05's ("whatever was delivered before the failure is still a correct prefix")
@@ -620,7 +624,9 @@ func C12(c *vf.Ctx) {
 			}
 			return out
 		},
-		design: &designCheck{cfg: sys.Config{Small: true, Threads: []string{"c1", "c2"}}, kinds: []string{"start", "hstep", "relw", "deliver", "close", "cancelsrv"},
+		design: &designCheck{cfg: sys.Config{Small: true, Threads: []string{"c1"}}, kinds: []string{"start", "hstep", "relw", "deliver", "close", "cancelsrv"},
+			maxRPC: 1, maxStims: 5, invs: "TypeOK StreamInvs OneWrite CloseOnce"},
+		designT: &designCheck{cfg: sys.Config{Small: true, Threads: []string{"c1", "c2"}}, kinds: []string{"start", "hstep", "relw", "deliver", "close", "cancelsrv"},
 			maxRPC: 1, maxStims: 6, invs: "TypeOK StreamInvs OneWrite CloseOnce"},
 	}
 	runSysFamily(c, fam, nT, nR)
@@ -650,7 +656,9 @@ func C07(c *vf.Ctx) {
 			w.Flow(40, func(w *sys.World) string { return "retnil" })
 		},
 		mons: []func(*runView) []finding{monWire},
-		design: &designCheck{cfg: sys.Config{Small: true, Soft: true, Threads: []string{"c1", "c2"}}, kinds: []string{"start", "relw", "cancel"},
+		design: &designCheck{cfg: sys.Config{Small: true, Soft: true, Threads: []string{"c1"}}, kinds: []string{"start", "relw", "cancel"},
+			maxRPC: 2, maxStims: 5, invs: "TypeOK StreamInvs OneWrite CloseOnce"},
+		designT: &designCheck{cfg: sys.Config{Small: true, Soft: true, Threads: []string{"c1", "c2"}}, kinds: []string{"start", "relw", "cancel"},
 			maxRPC: 2, maxStims: 7, invs: "TypeOK StreamInvs OneWrite CloseOnce"},
 	}
 	runSysFamily(c, fam, nT, nR)
@@ -687,7 +695,9 @@ func C01(c *vf.Ctx) {
 		},
 		mons: []func(*runView) []finding{monWire, monDelivery},
 		own:  map[string]bool{"C01": true},
-		design: &designCheck{cfg: sys.Config{Small: true, Threads: []string{"c1", "c2"}}, kinds: []string{"start", "hstep", "relw", "deliver"},
+		design: &designCheck{cfg: sys.Config{Small: true, Threads: []string{"c1"}}, kinds: []string{"start", "hstep", "relw", "deliver"},
+			maxRPC: 1, maxStims: 5, invs: "TypeOK StreamInvs OneWrite WireOrdered CloseOnce"},
+		designT: &designCheck{cfg: sys.Config{Small: true, Threads: []string{"c1", "c2"}}, kinds: []string{"start", "hstep", "relw", "deliver"},
 			maxRPC: 1, maxStims: 8, invs: "TypeOK StreamInvs OneWrite WireOrdered CloseOnce"},
 	}
 	runSysFamily(c, fam, nT, nR)
@@ -718,7 +728,9 @@ func C02(c *vf.Ctx) {
 		},
 		mons: []func(*runView) []finding{monWire, monDelivery, monIsolation},
 		own:  map[string]bool{"C02": true},
-		design: &designCheck{cfg: sys.Config{Small: false, Soft: true, Threads: []string{"c1", "c2"}}, kinds: []string{"start", "hstep", "relw", "deliver", "cancel"},
+		design: &designCheck{cfg: sys.Config{Small: false, Soft: true, Threads: []string{"c1"}}, kinds: []string{"start", "hstep", "relw", "deliver", "cancel"},
+			maxRPC: 2, maxStims: 5, invs: "TypeOK StreamInvs OneWrite"},
+		designT: &designCheck{cfg: sys.Config{Small: false, Soft: true, Threads: []string{"c1", "c2"}}, kinds: []string{"start", "hstep", "relw", "deliver", "cancel"},
 			maxRPC: 2, maxStims: 7, invs: "TypeOK StreamInvs OneWrite"},
 	}
 	runSysFamily(c, fam, nT, nR)
